@@ -62,6 +62,18 @@ CLAIMED = {
         note="Trusted base: world model semantics of each / anything / everything, reference interpreter. Bundle members are generated on explicit types only.",
         ref="DESIGN.md §8 C02",
     ),
+    "C06": dict(
+        engine="factosim-exec",
+        text="Seeded exploration: programs placing circuit-controllable entities whose enable is an inlinable comparison, a named comparison also used elsewhere, an arbitrary expression, any()/all() of a bundle or a selection from a container's .output (incl. balanced-loader shapes that reuse .output in several merges) are compiled under an injected layout fault plan; input values and container contents (environment-driven emitters on shared buses) change over a history; after each settled step the truth of every placed entity's circuit condition on the networks really wired to it must equal (expr_ref > 0).",
+        note="Trusted base: world model (entity conditions on red+green sums, anything/everything), reference interpreter; entities matched by prototype and tile.",
+        ref="DESIGN.md §8 C06",
+    ),
+    "C10": dict(
+        engine="factosim-exec",
+        text="Seeded twin co-simulation: one source from the scalar, repeated-subexpression, bundle, gated-cell, latch, entity and self-referential families is compiled with optimisation on and off, each under its own injected fault plan, and both builds are driven by the same schedule in the circuit model; every output anchor and entity condition is compared at every settle point, per-tick traces of free-running cells modulo one constant shift per observation point; acceptance must not depend on the setting.",
+        note="Trusted base: world model; observation points matched by declared name / prototype+tile. Equal wrong behaviour of both builds is not a C10 matter.",
+        ref="DESIGN.md §8 C10",
+    ),
 }
 
 NOT_YET = {}
